@@ -207,6 +207,12 @@ M = [
   "            let val = (1.0 / 16384.0) * (mantissa as f32 / 1024.0);", "            let val = (1.0 / 32768.0) * (mantissa as f32 / 1024.0);"),
  ("c12_unpack_i16_sign", "C12", "unpack_signed_u32|value", "crates/jxl-modular/src/sample.rs",
   "        let flip = 0u16.wrapping_sub(bit);\n        (base ^ flip) as i16", "        let flip = 0u16.wrapping_sub(bit);\n        (base ^ flip).wrapping_add(bit) as i16"),
+ ("c19_hlg_inverse_threshold", "C19", "tf::hlg_to_linear|curve", "crates/jxl-color/src/tf.rs",
+  "        *s = if a <= 0.5 {\n            a * a / 3.0", "        *s = if a <= 1.0 / 12.0 {\n            a * a / 3.0"),
+ ("c19_pq_intensity_scale_inverted", "C19", "tf::pq::pq_to_linear_generic|curve", "crates/jxl-color/src/tf/pq.rs",
+  "    let y_mult = 10000.0 / intensity_target;\n    let a = s.abs();\n    let x = a.mul_add(a, a);", "    let y_mult = intensity_target / 10000.0;\n    let a = s.abs();\n    let x = a.mul_add(a, a) * 1.0001;"),
+ ("c19_srgb_linear_segment_slope", "C19", "tf::srgb::srgb_to_linear|curve", "crates/jxl-color/src/tf/srgb.rs",
+  "            a / 12.92\n        } else {\n            crate::fastmath::rational_poly::eval_generic(a, P, Q)", "            a / 12.29\n        } else {\n            crate::fastmath::rational_poly::eval_generic(a, P, Q)"),
  ("c01_cluster_map_decoder_two_dists", "C01", "bound-lost", "crates/jxl-coding/src/lib.rs",
   "            Decoder::parse(bitstream, 1)?\n        };\n        decoder.begin(bitstream)?;", "            Decoder::parse(bitstream, num_dist.min(2))?\n        };\n        decoder.begin(bitstream)?;"),
 ]
